@@ -41,21 +41,29 @@ THEOREMS = [
     'Px.Codec.C15_dec_roundtrip',
     'Px.Codec.C15_chunk_inverse',
     'Px.Codec.C15_chunk_inverse_sizes',
+    'Px.Codec.C15_chunk_size_zero',
     'Px.Codec.C15_chunk_reference',
     'Px.Codec.C15_toChunks_in_grammar',
     'Px.Codec.C15_parse_pkt',
     'Px.Codec.C15_req_headers',
+    'Px.Codec.C15_req_headers_suppressed',
     'Px.Codec.C15_parse_build_req',
     'Px.Codec.C15_parse_build_req_chunked',
     'Px.Codec.C15_res_headers',
     'Px.Codec.C15_parse_build_resp',
-    'Px.Codec.C15_parse_build_resp_chunked',
     'Px.Codec.C15_build_parse_req',
+    'Px.Codec.C15_parse_keys_inv',
+    'Px.Codec.C15_build_parse_headers_same',
+    'Px.Codec.C15_build_parse_other_case_cl',
     'Px.Codec.C15_build_parse_resp',
-    'Px.Codec.C15_rebuild_wf',
     'Px.Codec.C15_update_body_plain',
+    'Px.Codec.C15_update_body_plain_resp',
+    'Px.Codec.C15_update_body_headers',
     'Px.Codec.C15_update_body_gzip',
     'Px.Codec.C15_update_body_chunked_partial',
+    'Px.Codec.C15_wf_pkt',
+    'Px.Codec.C15_wf_toChunks',
+    'Px.Codec.C15_rebuild_wf',
     'Px.Codec.C15_witness_D22',
     'Px.Codec.C15_witness_D23',
     'Px.Codec.C15_witness_D24',
@@ -968,7 +976,7 @@ def _rbody_spec(rng, big=False):
         return None
     if m == 1:
         return {'hex': ''}
-    if big and m == 2:
+    if big:
         return {'n': rng.choice([65536, 131072, 131073, 300000]), 'a': rng.randrange(256), 'b': rng.randrange(256)}
     n = rng.choice([1, 2, 3, 9, 10, 11, 99, 100, 255, 256, 1000])
     if m < 6:
@@ -1196,19 +1204,22 @@ def corpus():
 
 def generate(rng, tier):
     thorough = tier == 'thorough'
-    for _ in range(6000 if thorough else 700):
-        yield _gen_mkreq(rng, thorough)
-        yield _gen_mkres(rng, thorough)
+    for _ in range(10000 if thorough else 700):
+        yield _gen_mkreq(rng, False)
+        yield _gen_mkres(rng, False)
+    for _ in range(8 if thorough else 1):          # a handful of large bodies (hex lines get long)
+        yield _gen_mkreq(rng, True)
+        yield _gen_mkres(rng, True)
     for _ in range(300 if thorough else 60):
         parts = [rng.choice([b'GET', b'HTTP/1.1', b'/', b'', b'a b', b'200', b'OK']) for _ in range(rng.randrange(0, 5))]
         yield _mkpkt(parts, _user_headers(rng, allow_bad=True), _rbody_spec(rng), rng.random() < 0.5)
-    for _ in range(6000 if thorough else 700):
+    for _ in range(12000 if thorough else 700):
         yield from _gen_rebuild(rng, thorough)
     if 'D24' in OPEN:
         for _ in range(60 if thorough else 12):
             yield _gen_d24(rng)
     # to_chunks: all (length, size) pairs of a small scope, then sampled
-    kmax = 40 if thorough else 14
+    kmax = 64 if thorough else 14
     for n in range(0, kmax + 1):
         for size in range(1, n + 2):
             yield _tochunks({'n': n, 'a': rng.randrange(256), 'b': rng.randrange(256)}, size)
@@ -1222,7 +1233,7 @@ def generate(rng, tier):
     for n, size in ([(65536, 4096), (131072, 131072), (131073, 131072), (300000, 65536), (300000, 1000)] if thorough
                     else [(131073, 131072), (300000, 65536)]):
         yield _tochunks({'n': n, 'a': rng.randrange(1, 256), 'b': rng.randrange(256)}, size)
-    for _ in range(4000 if thorough else 500):
+    for _ in range(8000 if thorough else 500):
         s = _gen_stream(rng)
         yield _chunk_case(s, rng.choice([b'', b'', b'X', b'\r\n', b'0\r\n\r\n', b'GET / HTTP/1.1\r\n\r\n', b'\x00\xff']))
         if rng.random() < 0.3:
@@ -1230,7 +1241,7 @@ def generate(rng, tier):
     if 'D22' in OPEN:
         for _ in range(200 if thorough else 30):
             yield _chunk_case(_gen_stream(rng, trailers=True), rng.choice([b'', b'X', b'\r\n']))
-    for _ in range(5000 if thorough else 600):
+    for _ in range(10000 if thorough else 600):
         yield _gen_upd(rng, thorough)
 
 
